@@ -3,6 +3,7 @@
 #include "core/core.h"
 #include "core/simalloc.h"
 #include <functional>
+#include <climits>
 
 namespace sim {
 
@@ -99,11 +100,18 @@ static inline uint32_t elem_key(void const *p, size_t z)
 // callbacks need the current element size
 static size_t g_cb_z = 4;
 static uint64_t g_cmp_calls = 0;
+static int g_cmp_style = 0; // 0: -1/0/+1   1: key difference   2: huge magnitudes (the documentation fixes only the sign)
 static int elem_cmp(void const *l, void const *r)
 {
     ++g_cmp_calls;
     uint32_t a = elem_key(l, g_cb_z), b = elem_key(r, g_cb_z);
-    return (a > b) - (a < b);
+    if (a == b) return 0;
+    switch (g_cmp_style)
+    {
+    default: return (a > b) - (a < b);
+    case 1: return (a - b < 0x40000000u || b - a < 0x40000000u) ? (int)(a - b) : ((a > b) ? 1 : -1); // plain difference while it cannot overflow
+    case 2: return a > b ? INT_MAX - (int)(a & 1) : INT_MIN + 1 + (int)(b & 1);
+    }
 }
 static std::vector<std::string> g_dtor_seen;
 static bool g_dtor_outside = false;
